@@ -48,6 +48,7 @@ struct vprec {
     std::vector<double> dinv;
     mutable size_t count = 0;
     mutable double maxout = 0, maxin = 0;     // largest ||P v|| and ||v|| seen during a solve
+    mutable long throw_at = -1;               // > 0: the throw_at-th application of the current solve throws (once)
 
     void init(std::shared_ptr<build_matrix> M, const params &p, const backend_params &bp) {
         kind = p.get("kind", std::string("amg"));
@@ -76,6 +77,7 @@ struct vprec {
     }
     template <class V1, class V2> void apply(const V1 &rhs, V2 &&x) const {
         ++count;
+        if (throw_at > 0 && (long)count == throw_at) { throw_at = -1; throw std::runtime_error("injected failure of the preconditioner"); }
         if (amg) amg->apply(rhs, x);
         else if (kind == "dummy") dummy->apply(rhs, x);
         else for (size_t i = 0; i < dinv.size(); ++i) x[i] = dinv[i] * rhs[i];
@@ -191,19 +193,17 @@ static void spmv_abs(const crsd &A, const std::vector<double> &x, const std::vec
 static long g_cases = 0;
 
 // returns reported residual (for callers that post-process), emits the record
-static double run_solve(const solve_in &in, vr::obj *extra = 0, size_t *it_out = 0) {
-    vr::obj o;
+static void record_header(vr::obj &o, const solve_in &in, double &rep_out) {
     o.str("k", "ret").str("mode", in.mode).str("fam", in.fam).str("case", in.cas)
      .str("solver", in.solver).str("side", in.side).i("sided", in.sided).i("par", in.par).i("opt", in.opt)
      .str("coars", in.coars).str("relax", in.relax).str("pkind", in.pkind)
      .i("n", in.A->nrows).i("maxit", in.maxit).i("dflt", in.dflt).i("cfg", in.cfgid).i("tol", md(in.tol));
-    if (in.pkind == "amg" && !in.dflt)    // cycle parameters (-1 = default)
+    if (in.pkind == "amg" && in.dflt != 1)    // cycle parameters (-1 = default)
         o.i("ce", in.prm.get("precond.amg.coarse_enough", -1)).i("npre", in.prm.get("precond.amg.npre", -1))
          .i("npost", in.prm.get("precond.amg.npost", -1)).i("ncyc", in.prm.get("precond.amg.ncycle", -1))
          .i("prec", in.prm.get("precond.amg.pre_cycles", -1)).i("dc", in.prm.get("precond.amg.direct_coarse", true))
          .i("ml", in.prm.get("precond.amg.max_levels", -1));
     ++g_cases;
-    double rep_out = -1;
     if (const char *dump = getenv("C01_DUMPMAT")) {     // investigation aid: matrix of the (single) selected case
         FILE *fp = fopen(dump, "w");
         fprintf(fp, "%%%%MatrixMarket matrix coordinate real general\n%ld %ld %ld\n", (long)in.A->nrows, (long)in.A->ncols, (long)in.A->ptr[in.A->nrows]);
@@ -211,8 +211,9 @@ static double run_solve(const solve_in &in, vr::obj *extra = 0, size_t *it_out =
             fprintf(fp, "%ld %ld %.17g\n", (long)i + 1, (long)in.A->col[q] + 1, in.A->val[q]);
         fclose(fp);
     }
-    try {
-        Solver solve(in.A, in.prm);
+}
+// one solve on an existing solver object: fills the record; exceptions propagate
+static void solve_and_measure(Solver &solve, const solve_in &in, vr::obj &o, double &rep_out, vr::obj *extra, size_t *it_out) {
         std::vector<double> x = in.x0;
         ld nf = norm2(in.f);
         bool zero = nf < 4.4408920985006262e-16L;       // amgcl::detail::eps<double>(1): the solvers' own shortcut test
@@ -262,11 +263,29 @@ static double run_solve(const solve_in &in, vr::obj *extra = 0, size_t *it_out =
             o.i("cv", rep <= in.tol).i("amb", std::fabs(rep - in.tol) <= 1e-9 * in.tol);
         }
         if (extra) o.raw("x", extra->done());
-    } catch (const std::exception &e) {
-        std::string w = e.what();
-        bool brk = w.find("breakdown") != std::string::npos || w.find("Zero rho") != std::string::npos || w.find("Zero omega") != std::string::npos;
-        o.str("exc", w).i("brk", brk);
-    }
+}
+static void record_exception(vr::obj &o, const std::exception &e) {
+    std::string w = e.what();
+    bool brk = w.find("breakdown") != std::string::npos || w.find("Zero rho") != std::string::npos || w.find("Zero omega") != std::string::npos;
+    o.str("exc", w).i("brk", brk);
+}
+// a fresh solver object for one solve
+static double run_solve(const solve_in &in, vr::obj *extra = 0, size_t *it_out = 0) {
+    vr::obj o; double rep_out = -1;
+    record_header(o, in, rep_out);
+    try {
+        Solver solve(in.A, in.prm);
+        solve_and_measure(solve, in, o, rep_out, extra, it_out);
+    } catch (const std::exception &e) { record_exception(o, e); }
+    vr::emit(o.done());
+    return rep_out;
+}
+// another solve on an object with a history (in.prm is only logged; the object keeps its parameters)
+static double run_solve_on(Solver &solve, const solve_in &in, size_t *it_out = 0) {
+    vr::obj o; double rep_out = -1;
+    record_header(o, in, rep_out);
+    try { solve_and_measure(solve, in, o, rep_out, 0, it_out); }
+    catch (const std::exception &e) { record_exception(o, e); }
     vr::emit(o.done());
     return rep_out;
 }
@@ -531,6 +550,188 @@ static void mode_spd(int shard, int nshards) {
     }
 }
 
+
+// ------------------------------------------------------------------ mode hist
+// Histories on one solver object, restarted methods over several cycles, and cycle parameters
+// without pre-smoothing.  Everything on family spd_m with coefficient contrast <= 10 (where the
+// unchanged tree converges for every combination) and on small designed systems.
+//   A  "hist"    : a solve that follows an ABORTED call on the same object (the preconditioner throws at its
+//                  k-th application; the library's own "zero rho" breakdown) and a solve that follows a
+//                  completed one; judged by the truthfulness clauses like any other return
+//   B  "restart" : gmres / fgmres / lgmres with restart lengths 2..5 (K = 1..3), bicgstabl, idrs: convergence
+//                  within the budget (fresh and reused object) and the recomputed residual at the restart
+//                  boundaries c*(M+K), c = 1..6, which must not increase
+//   C  "cyc"     : npre = 0 with ncycle in {2,3} / pre_cycles in {2,3} (and controls): Krylov solvers converge
+//                  within the budget, Richardson contracts
+static void amg_params(ptree &p, const std::string &coars, const std::string &relax, int ce) {
+    p.put("precond.kind", "amg");
+    p.put("precond.amg.coarsening.type", coars);
+    p.put("precond.amg.relax.type", relax);
+    p.put("precond.amg.coarse_enough", ce);
+    if (coars == "smoothed_aggr_emin") p.put("precond.amg.max_levels", 2);     // see mode solve
+}
+static void second_rhs(vr::rng &g, const std::vector<double> &f, std::vector<double> &f2, std::vector<double> &x2) {
+    size_t n = f.size(); f2.resize(n); x2.resize(n);
+    for (size_t i = 0; i < n; ++i) { f2[i] = 0.5 * f[n - 1 - i] + 0.25 + 0.5 * g.unit(); x2[i] = g.unit() - 0.5; }
+}
+static void emit_abort(const solve_in &in, long throw_at, bool thrown, const std::string &what) {
+    vr::obj o; o.str("k", "abort").str("mode", in.mode).str("solver", in.solver).str("side", in.side).i("par", in.par)
+        .i("cfg", in.cfgid).i("at", throw_at).i("thrown", thrown).str("what", what);
+    vr::emit(o.done());
+}
+static void mode_hist(int shard, int nshards) {
+    uint64_t seed = vr::env_seed();
+    bool th = vr::thorough();
+    long cfgid = 0;
+    auto mine = [&]() { ++cfgid; return (long)(cfgid % nshards) == shard; };
+
+    // ---------------- A: histories
+    for (int rep = 0; rep < (th ? 4 : 1); ++rep) {
+        vr::rng g(seed * 92821ull + rep * 31 + 7);
+        int m = g.range(18, 24);
+        auto Agrid = fam_grid(g, m, m, 1, g.range(0, 1), 1, 1, 0, 0, 0);
+        std::vector<double> d8 = {1, 1.5, 2, 3, 4, 5, 6, 8};
+        auto Atiny = diag_matrix(d8, 0.0);
+        for (int si = 0; si < 8; ++si) for (int sd = 0; sd < 2; ++sd) for (int pi = 0; pi < 2; ++pi) for (long at : {2L, 3L, 5L}) {
+            std::string s = SOLVERS[si];
+            if (sd && !is_sided(s)) continue;
+            if (!mine()) continue;
+            solve_in in; in.mode = "hist"; in.solver = s; in.sided = is_sided(s); in.side = sd ? "left" : "right";
+            in.par = s == "bicgstabl" ? g.range(1, 3) : s == "idrs" ? g.range(1, 4) : (s == "gmres" || s == "fgmres" || s == "lgmres") ? g.range(3, 8) : 1;
+            in.maxit = 100; in.tol = 1e-8; in.cfgid = cfgid;
+            if (pi == 0) { in.fam = "spd_m_grid2"; in.A = Agrid; in.pkind = "amg"; in.coars = COARS[g.below(3)]; in.relax = g.coin() ? "spai0" : "damped_jacobi";
+                           amg_params(in.prm, in.coars, in.relax, 60); }
+            else { in.fam = "designed"; in.A = Atiny; in.pkind = "jac"; in.prm.put("precond.kind", "jac"); }
+            solver_params(in.prm, s, in.side, in.par, 0, in.maxit, in.tol);
+            size_t n = in.A->nrows;
+            std::vector<double> f1(n), x1(n, 0.0), f2, x2;
+            for (size_t i = 0; i < n; ++i) f1[i] = 1.0 + 0.25 * (i % 7);
+            second_rhs(g, f1, f2, x2);
+            try {
+                Solver solve(in.A, in.prm);
+                // 1. aborted call
+                { std::vector<double> x = x1; solve.precond().count = 0; solve.precond().throw_at = at;
+                  bool thrown = false; std::string what;
+                  try { solve(f1, x); } catch (const std::exception &e) { thrown = true; what = e.what(); }
+                  solve.precond().throw_at = -1;
+                  emit_abort(in, at, thrown, what); }
+                // 2. the next solves on the same object
+                in.cas = "after_abort"; in.f = f2; in.x0 = x2; run_solve_on(solve, in);
+                in.cas = "after_solve"; in.f = f1; in.x0 = x1; run_solve_on(solve, in);
+            } catch (const std::exception &e) { vr::obj o; [&]{ double d = 0; record_header(o, in, d); }(); record_exception(o, e); vr::emit(o.done()); }
+        }
+        // the library's own breakdown: BiCGStab(L) "zero rho" on a 3x3 system, then regular solves on the object
+        for (int sd = 0; sd < 2; ++sd) for (int L = 1; L <= 3; ++L) {
+            if (!mine()) continue;
+            solve_in in; in.mode = "hist"; in.solver = "bicgstabl"; in.sided = 1; in.side = sd ? "left" : "right"; in.par = L;
+            in.maxit = 100; in.tol = 1e-8; in.cfgid = cfgid; in.fam = "designed"; in.pkind = "dummy";
+            rows_t rows(3); rows[0] = {{0, 2.0}, {1, 1.0}, {2, 1.0}}; rows[1] = {{0, 1.0}, {1, 3.0}}; rows[2] = {{0, -1.0}, {2, 3.0}};
+            in.A = vr::from_rows(3, 3, rows);
+            in.prm.put("precond.kind", "dummy");
+            solver_params(in.prm, "bicgstabl", in.side, L, 0, in.maxit, in.tol);
+            try {
+                Solver solve(in.A, in.prm);
+                { std::vector<double> f = {1, 0, 0}, x(3, 0.0); bool thrown = false; std::string what;
+                  try { solve(f, x); } catch (const std::exception &e) { thrown = true; what = e.what(); }
+                  emit_abort(in, 0, thrown, what); }
+                in.cas = "after_breakdown"; in.f = {1, 2, 3}; in.x0 = {0, 0, 0}; run_solve_on(solve, in);
+                in.cas = "after_solve"; in.f = {-2, 0.5, 1}; in.x0 = {0, 0, 0}; run_solve_on(solve, in);
+            } catch (const std::exception &e) { vr::obj o; [&]{ double d = 0; record_header(o, in, d); }(); record_exception(o, e); vr::emit(o.done()); }
+        }
+    }
+
+    // ---------------- B: restarted methods over several cycles
+    for (int pi = 0; pi < (th ? 6 : 2); ++pi) {
+        vr::rng g(seed * 15485863ull + pi * 17 + 3);
+        int m = g.range(28, 38);
+        auto A = pi % 2 ? fam_graph(g, g.range(800, 1400), g.range(0, 1)) : fam_grid(g, m, m, 1, g.range(0, 1), 1, 1, 0, 0, 0);
+        std::string fam = pi % 2 ? "spd_m_graph" : "spd_m_grid2";
+        size_t n = A->nrows;
+        std::vector<double> f(n), x0(n, 0.0), f2, x2;
+        for (auto &v : f) v = 2 * g.unit() - 1;
+        second_rhs(g, f, f2, x2);
+        static const char *RS[5] = {"gmres", "fgmres", "lgmres", "bicgstabl", "idrs"};
+        static const char *RL[3] = {"spai0", "damped_jacobi", "gauss_seidel"};
+        for (int ci = 0; ci < 3; ++ci) for (int ri = 0; ri < 3; ++ri) for (int si = 0; si < 5; ++si) for (int v = 0; v < 2; ++v) {
+            if (!mine()) continue;
+            std::string s = RS[si];
+            solve_in in; in.mode = "restart"; in.fam = fam; in.solver = s; in.sided = is_sided(s);
+            in.side = (is_sided(s) && (ci + ri + v) % 2) ? "left" : "right";
+            in.coars = COARS[ci]; in.relax = RL[ri]; in.pkind = "amg"; in.cfgid = cfgid; in.A = A;
+            in.maxit = 500; in.tol = 1e-8; in.dflt = 2;          // dflt = 2: convergence within the budget is promised
+            int M = g.range(3, 5), K = g.range(1, 3);
+            amg_params(in.prm, in.coars, in.relax, 100);
+            solver_params(in.prm, s, in.side, s == "bicgstabl" ? g.range(2, 4) : s == "idrs" ? g.range(2, 4) : M, 0, in.maxit, in.tol);
+            in.par = s == "bicgstabl" ? in.prm.get("solver.L", 2) : s == "idrs" ? in.prm.get("solver.s", 4) : M;
+            if (s == "lgmres") { in.prm.put("solver.M", M); in.prm.put("solver.K", K); in.par = M + K; }
+            try {
+                Solver solve(in.A, in.prm);
+                in.cas = "first"; in.f = f; in.x0 = x0; run_solve_on(solve, in);
+                in.cas = "reused"; in.f = f2; in.x0 = x2; run_solve_on(solve, in);
+            } catch (const std::exception &e) { vr::obj o; double d; record_header(o, in, d); record_exception(o, e); vr::emit(o.done()); }
+            if (si > 2) continue;
+            // recomputed residual at the restart boundaries (fresh objects, budget c * cycle length), AMG and
+            // a weak (perturbed Jacobi) preconditioner
+            for (int weak = 0; weak < 2; ++weak) {
+                int cyc = in.par; std::vector<long> seq; double prev = -1, inc = 0; bool ok = true;
+                for (int c = 1; c <= 6 && ok; ++c) {
+                    ptree q = in.prm; q.put("solver.maxiter", c * cyc); q.put("solver.tol", 1e-300);
+                    if (weak) { q.erase("precond"); q.put("precond.kind", "jac"); }
+                    try {
+                        Solver sv(in.A, q); std::vector<double> x = x0; size_t it; double r; std::tie(it, r) = sv(f, x);
+                        if (!std::isfinite(r)) { ok = false; break; }
+                        seq.push_back(md(r));
+                        if (prev > 1e-12) inc = std::max(inc, r / prev - 1);
+                        prev = r;
+                    } catch (const std::exception &) { ok = false; }
+                }
+                vr::obj o; o.str("k", "restart").str("mode", "restart").str("solver", s).str("side", in.side).str("fam", fam).i("cfg", cfgid)
+                    .i("M", M).i("K", s == "lgmres" ? K : 0).i("cyc", cyc).i("weak", weak).str("coars", in.coars).str("relax", in.relax)
+                    .i("ok", ok).ints("seq", seq).i("inc", md(inc));
+                vr::emit(o.done());
+            }
+        }
+    }
+
+    // ---------------- C: cycle parameters without pre-smoothing
+    for (int pi = 0; pi < (th ? 6 : 2); ++pi) {
+        vr::rng g(seed * 32452843ull + pi * 19 + 11);
+        int m = g.range(28, 38);
+        auto A = pi % 2 ? fam_graph(g, g.range(800, 1400), g.range(0, 1)) : fam_grid(g, m, m, 1, g.range(0, 1), 1, 1, 0, 0, 0);
+        std::string fam = pi % 2 ? "spd_m_graph" : "spd_m_grid2";
+        size_t n = A->nrows;
+        std::vector<double> f(n), x0(n, 0.0);
+        for (auto &v : f) v = 2 * g.unit() - 1;
+        static const int CYC[6][3] = {{0, 2, 1}, {0, 3, 1}, {0, 1, 2}, {0, 1, 3}, {0, 2, 2}, {1, 2, 2}};   // npre, ncycle, pre_cycles
+        static const char *RL[4] = {"spai0", "damped_jacobi", "gauss_seidel", "ilu0"};
+        // CG is left out: without pre-smoothing the cycle is not a symmetric operator
+        static const char *CS[4] = {"bicgstab", "gmres", "idrs", "richardson"};
+        for (int ci = 0; ci < 4; ++ci) for (int ri = 0; ri < 4; ++ri) for (int cy = 0; cy < 6; ++cy) for (int si = 0; si < 4; ++si) {
+            if (!mine()) continue;
+            std::string s = CS[si];
+            solve_in in; in.mode = "cyc"; in.fam = fam; in.solver = s; in.sided = is_sided(s); in.side = "right";
+            in.coars = COARS[ci]; in.relax = RL[ri]; in.pkind = "amg"; in.cfgid = cfgid; in.A = A; in.f = f; in.x0 = x0;
+            in.maxit = 100; in.tol = 1e-8; in.par = s == "gmres" ? 30 : s == "idrs" ? 4 : 1; in.cas = "npre" + std::to_string(CYC[cy][0]);
+            amg_params(in.prm, in.coars, in.relax, g.coin() ? 60 : 120);
+            in.prm.put("precond.amg.npre", CYC[cy][0]); in.prm.put("precond.amg.npost", g.range(1, 2));
+            in.prm.put("precond.amg.ncycle", CYC[cy][1]); in.prm.put("precond.amg.pre_cycles", CYC[cy][2]);
+            solver_params(in.prm, s, "right", in.par, 0, in.maxit, in.tol);
+            if (s != "richardson") { in.dflt = 2; run_solve(in); continue; }
+            // Richardson: the reported residual after 8 and after 16 steps
+            double r[2]; bool ok = true;
+            for (int b = 0; b < 2; ++b) {
+                solve_in q = in; q.cas = in.cas + "_rich" + std::to_string(8 * (b + 1)); q.maxit = 8 * (b + 1); q.tol = 1e-300;
+                q.prm.put("solver.maxiter", q.maxit); q.prm.put("solver.tol", 1e-300);
+                r[b] = run_solve(q); if (!(r[b] > 0) || !std::isfinite(r[b])) ok = false;
+            }
+            vr::obj o; o.str("k", "contract").str("mode", "cyc").str("fam", fam).str("coars", in.coars).str("relax", in.relax).i("cfg", cfgid)
+                .i("npre", CYC[cy][0]).i("ncyc", CYC[cy][1]).i("prec", CYC[cy][2]).i("ok", ok);
+            if (ok) o.i("r8", md(r[0])).i("r16", md(r[1]));
+            vr::emit(o.done());
+        }
+    }
+}
+
 int main(int argc, char **argv) {
     vr::install_terminate();
     std::string mode = argc > 1 ? argv[1] : "replay";
@@ -538,6 +739,7 @@ int main(int argc, char **argv) {
     if (mode == "replay") mode_replay(vr::env_int("C01_MAXITER", 6), vr::env_int("C01_MAXPAR", 3));
     else if (mode == "solve") mode_solve(a, b);
     else if (mode == "spd") mode_spd(a, b);
+    else if (mode == "hist") mode_hist(a, b);
     else { std::cerr << "unknown mode\n"; return 2; }
     vr::obj o; o.str("e", "End").i("cases", g_cases);
     vr::emit(o.done());
